@@ -163,6 +163,10 @@ def assert_repo_import():
     return here
 
 
+INTERNAL_ERRORS = (AssertionError, IndexError, KeyError, AttributeError, UnboundLocalError, NameError, ZeroDivisionError,
+                   RecursionError, RuntimeError)
+
+
 def worker_main(argv):
     import argparse
     ap = argparse.ArgumentParser()
@@ -180,12 +184,26 @@ def worker_main(argv):
     assert_repo_import()
     mod = importlib.import_module('vf.checks.' + a.prop.lower())
     ctx = Ctx(a.prop, a.tier, a.seed, a.shard, a.nshards, a.budget)
-    if a.replay:
-        with open(a.replay) as f:
-            rec = json.load(f)
-        mod.replay(ctx, rec['case'])
-    else:
-        mod.run(ctx)
+    try:
+        if a.replay:
+            with open(a.replay) as f:
+                rec = json.load(f)
+            mod.replay(ctx, rec['case'])
+        else:
+            mod.run(ctx)
+    except INTERNAL_ERRORS as e:
+        # Safety net: an internal error (assertion, index, key, attribute, unbound local ...) raised INSIDE the library and
+        # not anticipated by the workload is an observation about the library, not a harness failure: none of the
+        # properties allows such an exception to reach the caller.  Anything else still crashes the shard (inconclusive).
+        import traceback
+        tb = traceback.extract_tb(e.__traceback__)
+        src = os.path.join(repo_root(), 'src') + os.sep
+        if not tb or not tb[-1].filename.startswith(src):
+            raise
+        where = '%s:%d in %s' % (tb[-1].filename[len(src):], tb[-1].lineno, tb[-1].name)
+        calls = ['%s:%d %s' % (os.path.basename(f.filename), f.lineno, f.name) for f in tb[-6:]]
+        ctx.violation('library-internal-error', {'where': where, 'exception': type(e).__name__, 'stack': calls},
+                      '%s: %s raised at %s and escaped to the caller' % (type(e).__name__, e, where))
     with open(a.out, 'w') as f:
         json.dump(ctx.dump(), f)
     return 0
